@@ -69,6 +69,22 @@ class PytketSignatureMismatch(Error):
 
 
 @dataclass(frozen=True)
+class PytketUnitsOutsideRegisters(Error):
+    title: ClassVar[str] = "Unsupported circuit"
+    span_label: ClassVar[str] = (
+        "Circuit has qubits or bits that are not part of a complete register "
+        "(indexed contiguously from zero), so it cannot be loaded using arrays"
+    )
+
+    @dataclass(frozen=True)
+    class Fix(Help):
+        message: ClassVar[str] = (
+            "Load the circuit with `use_arrays=False` or rename its units into "
+            "complete registers first"
+        )
+
+
+@dataclass(frozen=True)
 class ComptimeUnknownError(Error):
     title: ClassVar[str] = "Not known at compile-time"
     span_label: ClassVar[str] = "Value of this {thing} must be known at compile-time"
